@@ -80,7 +80,13 @@ def events_of(data):
             lastpos = pos
             if is_out:
                 v = VARIANT.search(r)
-                variant[pos] = v.group(1).decode() if v else ("None" if b"\tNone" in r else "?")
+                if v:
+                    variant[pos] = v.group(1).decode()
+                else:
+                    # another record layout: the first known variant name that opens a Debug rendering
+                    hits = [(r.find(n.encode() + b"("), n) for n in set(T.tables()["variants"].values())]
+                    hits = [h for h in hits if h[0] >= 0]
+                    variant[pos] = min(hits)[1] if hits else ("None" if b"\tNone" in r else "?")
     attribute(recs_out, n_out, True)
     attribute(recs_err, n_err, False)
     consumed = max([i for i in range(len(lines)) if n_out[i] or n_err[i]] + [-1]) + 1
